@@ -11,7 +11,7 @@
   Every theorem quantifies over EVERY `argsort` routine satisfying `IsArgsort` (a permutation of
   `range n` that sorts the keys; ties arbitrary) — numpy's unstable introsort included.
 -/
-import FcProofs.Lemmas.LexsortCanon
+import FcProofs.Lemmas.LexsortLadder
 namespace Fc
 open Spec
 
@@ -145,5 +145,161 @@ theorem C02_lexsort_canonical {α : Type} {as1 as2 : List Int → List Nat} (h1 
   refine lexsorted_unique (colKey A key l1) ncols hso1 hso2 ((hp1.trans hperm).trans hp2.symm) ?_
   intro a ha b hb
   exact hdist a (hp1.mem_iff.mp ha) b (hp1.mem_iff.mp hb)
+
+/-! ## (iv) the point sort with the duplicate-point tie break -/
+
+/-- **`_sorting_points_indices`, specified.**  For EVERY `argsort` and every mesh satisfying the
+    hypotheses `PointHypP` (Sep for the coordinate columns and for the candidate cell centres;
+    every point that coincides with another one has adjacent cells with finite centres): the model
+    does not raise and returns a permutation of the (index, coordinates) items that is sorted
+    lexicographically by the coordinate cluster keys, coincident points (equal key vectors) being
+    ordered lexicographically by the cluster keys of their "minimal" adjacent cell centre. -/
+theorem C02_sort_points_sorted {as : List Int → List Nat} (has : IsArgsort as) {t : MeshTol} {A B M : Nat}
+    {m : Mesh} {cands : List (List Int)} (hyp : PointHypP t A B M m cands) (hne : m.points ≠ []) :
+    ∃ L, sortPointsItems as t m = some L ∧ L.Perm (pitems m) ∧
+      L.Pairwise (le2 (KC A m) (KM A cands as t m) m.dim) :=
+  sortPointsItems_spec has hyp hne
+
+/-- The "minimal" adjacent cell centre is one of the centres around the point and minimal in the
+    lexicographic order of the centre cluster keys; its key vector is the same for every `argsort`. -/
+theorem C02_min_centre_tie_independent {as1 as2 : List Int → List Nat} (h1 : IsArgsort as1)
+    (h2 : IsArgsort as2) {t : MeshTol} {A B M : Nat} {m : Mesh} {cands : List (List Int)}
+    (hC : SepCols t A B M rowKey m.dim cands) (hdim : 1 ≤ m.dim)
+    {p : Nat} {cs : List (List Int)} (hcs : centresOf m p = some cs) (hsub : ∀ c ∈ cs, c ∈ cands) :
+    (∃ c, minCentre as1 t m p = some c ∧ c ∈ cs ∧ ∀ c' ∈ cs, lexLE (KG A cands) m.dim 0 c c') ∧
+    kvec (KG A cands) m.dim 0 ((minCentre as1 t m p).getD []) =
+      kvec (KG A cands) m.dim 0 ((minCentre as2 t m p).getD []) :=
+  ⟨minCentre_spec h1 hC hdim hcs hsub, minCentre_key_unique h1 h2 hC hdim hcs hsub⟩
+
+/-- **The point sort does not depend on the tie-breaking of `argsort`** when coincident points are
+    distinguishable (pairwise distinct pairs of coordinate / minimal-centre key vectors): two
+    arbitrary `argsort` routines yield the same index map. -/
+theorem C02_sort_points_tie_independent {as1 as2 : List Int → List Nat} (h1 : IsArgsort as1)
+    (h2 : IsArgsort as2) {t : MeshTol} {A B M : Nat} {m : Mesh} {cands : List (List Int)}
+    (hyp : PointHypP t A B M m cands)
+    (hdist : ∀ a ∈ pitems m, ∀ b ∈ pitems m, kvec (KC A m) m.dim 0 a = kvec (KC A m) m.dim 0 b →
+      kvec (KM A cands as1 t m) m.dim 0 a = kvec (KM A cands as1 t m) m.dim 0 b → a = b) :
+    sortPointsIdx as1 t m = sortPointsIdx as2 t m := by
+  unfold sortPointsIdx
+  rw [sortPointsItems_tie_independent h1 h2 hyp hdist]
+
+/-- **C02_canonical_points (partial: the relabelling invariance of the keys is a hypothesis).**
+    FULL STATEMENT (DESIGN §7): for `M₂ = relabel ρ M₁` (points permuted, cells permuted and
+    renumbered, noise below tol/8) with `Sep` and distinguishable coincident points, the sorted
+    points of `M₂` and `M₁` have pointwise equal cluster keys, and are identical without noise.
+    PROVED HERE: exactly that conclusion, for two arbitrary meshes and two arbitrary `argsort`
+    routines, from the hypothesis `hrel` that the two point sets carry the same pairs (coordinate
+    key vector, minimal-centre key vector) up to permutation.  MISSING: the derivation of `hrel`
+    from the `relabel` relation (invariance of the adjacent-cell centres' cluster keys under
+    renumbering; for noise additionally the joint `Sep` of both sides). -/
+theorem C02_canonical_points_partial {as1 as2 : List Int → List Nat} (h1 : IsArgsort as1) (h2 : IsArgsort as2)
+    {t1 t2 : MeshTol} {A1 B1 M1 A2 B2 M2 : Nat} {m1 m2 : Mesh} {c1 c2 : List (List Int)}
+    (hy1 : PointHypP t1 A1 B1 M1 m1 c1) (hy2 : PointHypP t2 A2 B2 M2 m2 c2)
+    (hn1 : m1.points ≠ []) (hn2 : m2.points ≠ []) (hdim : m1.dim = m2.dim)
+    (hrel : ((pitems m1).map (kv2 (KC A1 m1) (KM A1 c1 as1 t1 m1) m1.dim)).Perm
+            ((pitems m2).map (kv2 (KC A2 m2) (KM A2 c2 as2 t2 m2) m2.dim))) :
+    ∃ L1 L2, sortPointsItems as1 t1 m1 = some L1 ∧ sortPointsItems as2 t2 m2 = some L2 ∧
+      L1.map (kv2 (KC A1 m1) (KM A1 c1 as1 t1 m1) m1.dim) =
+      L2.map (kv2 (KC A2 m2) (KM A2 c2 as2 t2 m2) m2.dim) :=
+  sortPoints_canonical_keys h1 h2 hy1 hy2 hn1 hn2 hdim hrel
+
+/-- noise-free part of `C02_canonical_points`: identical sorted coordinates (same partial status:
+    `hrel` — the (coordinates, key-vector pair) of the two point sets agree up to permutation — is a
+    hypothesis; `hdist` = coincident points are distinguishable or bitwise identical) -/
+theorem C02_canonical_points_identical_partial {as1 as2 : List Int → List Nat} (h1 : IsArgsort as1)
+    (h2 : IsArgsort as2) {t1 t2 : MeshTol} {A1 B1 M1 A2 B2 M2 : Nat} {m1 m2 : Mesh} {c1 c2 : List (List Int)}
+    (hy1 : PointHypP t1 A1 B1 M1 m1 c1) (hy2 : PointHypP t2 A2 B2 M2 m2 c2)
+    (hn1 : m1.points ≠ []) (hn2 : m2.points ≠ []) (hdim : m1.dim = m2.dim)
+    (hrel : ((pitems m1).map fun it => (it.2, kv2 (KC A1 m1) (KM A1 c1 as1 t1 m1) m1.dim it)).Perm
+            ((pitems m2).map fun it => (it.2, kv2 (KC A2 m2) (KM A2 c2 as2 t2 m2) m2.dim it)))
+    (hdist : ∀ a ∈ pitems m1, ∀ b ∈ pitems m1,
+      kv2 (KC A1 m1) (KM A1 c1 as1 t1 m1) m1.dim a = kv2 (KC A1 m1) (KM A1 c1 as1 t1 m1) m1.dim b → a.2 = b.2) :
+    ∃ L1 L2, sortPointsItems as1 t1 m1 = some L1 ∧ sortPointsItems as2 t2 m2 = some L2 ∧
+      L1.map (·.2) = L2.map (·.2) :=
+  sortPoints_canonical_rows h1 h2 hy1 hy2 hn1 hn2 hdim hrel hdist
+
+/-! ## cells -/
+
+/-- **C02_canonical_cells.**  Two blocks of one cell type holding the same rows in a different order,
+    no two rows with the same hashed vertex set (`h` = Python's `hash` on the sorted corner tuple,
+    injective on the occurring keys): both sides' `argsort` put the cells into the SAME order. -/
+theorem C02_canonical_cells {as1 as2 : List Int → List Nat} (h1 : IsArgsort as1) (h2 : IsArgsort as2)
+    (h : List Nat → Int) (rows1 rows2 : List (List Nat)) (hperm : rows1.Perm rows2)
+    (hinj : ∀ a ∈ rows1, ∀ b ∈ rows1, h (sortNat a) = h (sortNat b) → a = b) :
+    sortedCellRows as1 h rows1 = sortedCellRows as2 h rows2 :=
+  cells_canonical h1 h2 h rows1 rows2 hperm hinj
+
+/-! ## (v) the comparator ladder -/
+
+/-- With the default flags and equal space dimensions the ladder returns the outcome of the FIRST
+    rung whose domain check passes (as is → orphans stripped + points sorted → cells sorted),
+    otherwise the outcome of the last rung; it raises exactly when a point sort raises. -/
+theorem C02_ladder_first_passing_rung (asS asR : List Int → List Nat) (h : List Nat → Int)
+    (srcF refF : MeshFields) (hdim : srcF.mesh.dim = refF.mesh.dim) :
+    ladder asS asR h {} srcF refF =
+      if (runComparison ⟨srcF, meshTolOf srcF.mesh, false⟩ ⟨refF, meshTolOf refF.mesh, false⟩).domainEq then
+        .done 0 (runComparison ⟨srcF, meshTolOf srcF.mesh, false⟩ ⟨refF, meshTolOf refF.mesh, false⟩)
+      else
+      match permuteSide asS {} ⟨srcF, meshTolOf srcF.mesh, false⟩,
+            permuteSide asR {} ⟨refF, meshTolOf refF.mesh, false⟩ with
+      | some s2, some r2 =>
+        if (runComparison s2 r2).domainEq then .done 2 (runComparison s2 r2) else
+        .done 3 (runComparison { s2 with f := sortCells asS h s2.f } { r2 with f := sortCells asR h r2.f })
+      | _, _ => .raised :=
+  ladder_default_cases asS asR h srcF refF hdim
+
+/-- A view compared with itself (whatever the tolerances and kinds of the two domain objects):
+    equal domains and every field `passed` — reflexivity of `mesh_equal`, of the name matching and
+    of `DefaultEquality` on finite values of every modelled dtype. -/
+theorem C02_compare_self_passes (f : MeshFields) (t1 t2 : MeshTol) (p1 p2 : Bool)
+    (hnd : (f.mesh.cells.map (·.1)).Nodup) :
+    allPassed (runComparison ⟨f, t1, p1⟩ ⟨f, t2, p2⟩) = true :=
+  runComparison_self f t1 t2 p1 p2 hnd
+
+/-- **C02_no_false_fail (partial).**
+    FULL STATEMENT (DESIGN §7): `WellFormed M ∧ Sep M ∧ Distinguishable M` ⇒ the default comparator on
+    `(relabel ρ M, M)`, in either role, ends with `domainEq = true` and every field `passed`.
+    PROVED HERE, for every pair of `argsort` routines and every `h`: under `PointHypP` of both stripped
+    sides (so that no point sort raises) the default ladder ends with equal domains and every field
+    passed PROVIDED
+      `hcanon`  the fully sorted views of the two sides are identical (what canonicity of the point
+                sort, of the cell sort and C08's index-map algebra deliver for a noise-free relabelling
+                with unshuffled type blocks), and
+      `hearly0`, `hearly2`  a domain check that already passes on an earlier rung (as is / sorted
+                points) is followed by passing fields there.
+    MISSING for the full statement: (a) `hcanon` from `relabel` (needs `hrel` of
+    `C02_canonical_points_partial`, `C02_canonical_cells` and the content-preservation of the index-map
+    application, C08), incl. shuffled type blocks (equality up to block order) and noise (fuzzy instead
+    of identical points); (b) `hearly0/2`: a relabelling that passes the as-is domain check fixes every
+    distinguishable point (automorphism argument). -/
+theorem C02_no_false_fail_partial {asS asR : List Int → List Nat} (hS : IsArgsort asS) (hR : IsArgsort asR)
+    (h : List Nat → Int) (srcF refF : MeshFields) (hdim : srcF.mesh.dim = refF.mesh.dim)
+    {A1 B1 M1 A2 B2 M2 : Nat} {c1 c2 : List (List Int)}
+    (hyS : PointHypP (meshTolOf srcF.mesh) A1 B1 M1 (stripOrphans asS srcF).mesh c1)
+    (hyR : PointHypP (meshTolOf refF.mesh) A2 B2 M2 (stripOrphans asR refF).mesh c2)
+    (hcanon : ∀ s2 r2, permuteSide asS {} ⟨srcF, meshTolOf srcF.mesh, false⟩ = some s2 →
+      permuteSide asR {} ⟨refF, meshTolOf refF.mesh, false⟩ = some r2 →
+      sortCells asS h s2.f = sortCells asR h r2.f ∧ ((sortCells asS h s2.f).mesh.cells.map (·.1)).Nodup)
+    (hearly0 : (runComparison ⟨srcF, meshTolOf srcF.mesh, false⟩ ⟨refF, meshTolOf refF.mesh, false⟩).domainEq = true →
+      allPassed (runComparison ⟨srcF, meshTolOf srcF.mesh, false⟩ ⟨refF, meshTolOf refF.mesh, false⟩) = true)
+    (hearly2 : ∀ s2 r2, permuteSide asS {} ⟨srcF, meshTolOf srcF.mesh, false⟩ = some s2 →
+      permuteSide asR {} ⟨refF, meshTolOf refF.mesh, false⟩ = some r2 →
+      (runComparison s2 r2).domainEq = true → allPassed (runComparison s2 r2) = true) :
+    ladderPasses (ladder asS asR h {} srcF refF) = true := by
+  rw [ladder_default_cases asS asR h srcF refF hdim]
+  simp only
+  obtain ⟨s2, es⟩ := permuteSide_isSome hS ⟨srcF, meshTolOf srcF.mesh, false⟩ hyS
+  obtain ⟨r2, er⟩ := permuteSide_isSome hR ⟨refF, meshTolOf refF.mesh, false⟩ hyR
+  by_cases h0 : (runComparison ⟨srcF, meshTolOf srcF.mesh, false⟩ ⟨refF, meshTolOf refF.mesh, false⟩).domainEq = true
+  · simp only [h0, if_true, ladderPasses]
+    exact hearly0 h0
+  · simp only [h0, Bool.false_eq_true, if_false, es, er]
+    by_cases h2 : (runComparison s2 r2).domainEq = true
+    · simp only [h2, if_true, ladderPasses]
+      exact hearly2 s2 r2 es er h2
+    · simp only [h2, Bool.false_eq_true, if_false, ladderPasses]
+      obtain ⟨hc, hnd⟩ := hcanon s2 r2 es er
+      rw [← hc]
+      exact runComparison_self _ _ _ _ _ hnd
 
 end Fc
